@@ -115,7 +115,7 @@ def plan(tier: str, seed: int) -> list[dict]:
         for j in range(25 if tier == "quick" else 1500):
             cases.append({"k": "rand", "inp": ii, "j": j})
     crafted = ["hv-self", "hv-pair", "hv-chain", "shot-self", "shot-pair", "shot-mid-self", "shot-base-mid", "vmdk-self-parent", "vhdx-self-parent",
-               "qcow2-bomb", "vmdk-bomb", "vmtar-gzbomb", "vmx-nested", "vmx-giant", "keystore-deep", "qcow2-snap-zero-table", "vmdk-desc-giant",
+               "qcow2-bomb", "vmdk-bomb", "vmtar-gzbomb", "vmx-nested", "vmx-giant", "keystore-deep", "qcow2-snap-zero-table", "vmdk-desc-giant", "keysafe-deep-pair", "qcow2-snap-shared-l1",
                "big-unit", "big-unit", "vhdx-diff-bitmap", "vmtar-pax", "vmtar-pax", "vmtar-pax", "qcow2-ext-wrap", "qcow2-ext-wrap", "layered-corrupt", "layered-corrupt", "layered-corrupt", "layered-corrupt", "layered-corrupt", "layered-corrupt"]
     crafted = [(c, j) for j, c in enumerate(crafted)]
     # every (text grammar, repeated token) combination, in both tiers
@@ -704,6 +704,48 @@ def _crafted(case, ctx, res):
         in_len = len(raw)
         ctx.mem.begin()
         o = call(lambda: QCow2(io.BytesIO(bytes(raw)), backing_file=-1 if False else None).read(512))
+    elif c == "keysafe-deep-pair":
+        # hundreds of pair locators nested in one another around a large innermost data member: nesting is either refused or
+        # costs no more than the text is long - not depth x length
+        import base64
+        from urllib.parse import quote
+
+        from dissect.hypervisor.descriptor.vmx import VMX
+
+        depth = rng.choice([40, 150, 400, 700])
+        cd = ":".join(["pass2key=PBKDF2-HMAC-SHA-1", "cipher=AES-256", "rounds=1000", "salt=" + quote(base64.b64encode(b"0123456789abcdef").decode(), safe="")])
+        locator = "phrase/" + quote("demo", safe="") + "/" + quote(cd, safe="")
+        small = quote(base64.b64encode(bytes(48)).decode(), safe="")
+        big = quote(base64.b64encode(b"\xa5" * rng.choice([60_000, 120_000, 240_000])).decode(), safe="")
+        for level in range(depth):
+            locator = f"pair/({locator},HMAC-SHA-1,{big if level == 0 else small})"
+        text = f'encryption.keySafe = "vmware:key/list/({locator})"\nencryption.data = "AAAA"\n'
+        in_len = len(text)
+        label = f"crafted:keysafe-deep-pair:{depth}"
+        ctx.mem.begin()
+        o = call(lambda: VMX.parse(text).unlock_with_phrase("demo"))
+    elif c == "qcow2-snap-shared-l1":
+        # a snapshot table of hundreds of entries that all name the same, large L1 table: listing the snapshots costs what the
+        # table is long, not entries x L1 size
+        from dissect.hypervisor.disk.qcow2 import QCow2
+
+        view = wq.make_view(rng, size=8 * 512, cluster_bits=9, kinds="NNNNNNNN", extl2=False, tag=1)
+        img, _, meta = wq.build(rng, cluster_bits=9, size=8 * 512, views=[view], placement="seq")
+        raw = bytearray(img.to_bytes())
+        l1_entries = rng.choice([1 << 15, 1 << 16, 1 << 17])
+        l1_off = -(-len(raw) // 512) * 512
+        raw += bytes(8 * l1_entries)
+        nsn = rng.choice([60, 240, 500])
+        tab_off = len(raw)
+        for j in range(nsn):
+            ent = struct.pack(">QIHHIIQII", l1_off, l1_entries, 1, 1, 0, 0, 0, 0, 0) + b"1" + b"s"
+            raw += ent + bytes((-len(ent)) % 8)
+        struct.pack_into(">I", raw, 60, nsn)
+        struct.pack_into(">Q", raw, 64, tab_off)
+        in_len = len(raw)
+        label = f"crafted:qcow2-snap-shared-l1:{nsn}x{l1_entries}"
+        ctx.mem.begin()
+        o = call(lambda: [len(s_.id_str) for s_ in QCow2(io.BytesIO(bytes(raw))).snapshots])
     elif c == "qcow2-snap-zero-table":
         from dissect.hypervisor.disk.qcow2 import QCow2
 
